@@ -155,7 +155,7 @@ def solve_spg_subproblem(x, cauchyStep, r, bounds, hess_vec_func, precond, trSiz
         ds = d@s
         qMax = max(qHistory)
         alpha = line_search(ds, sBs, q, qMax, settings)
-        alpha = min(1.0, alpha) if sBs > 0 else 1.0
+        alpha = min(1.0, max(0.0, alpha)) if sBs > 0 else 1.0
 
         z += alpha*s
         d += alpha*Bs
